@@ -324,6 +324,13 @@ def single_operand_sets(ctx):
                     ts = matches_true_set(fn, si)
                     if ts & set(TYPES):
                         acc |= ts
+                        if subject is None:
+                            # what the `matches!` looks at: the scrutinee of the switches that decide its arms
+                            for (bi, _kk, _st) in si.get("defs", []):
+                                for S4, _lab in fn.deciding(bi):
+                                    d4 = sh(ne(fn.deep(fn.blocks[S4]["t"]["d"])))
+                                    if "infer_expr_type" in d4 and subject is None:
+                                        subject = d4
                         subject = subject or "matches"
             if not acc:
                 continue
@@ -1005,7 +1012,8 @@ def r11_always_returns_is_a_must_analysis(ctx):
     tab = mir_enum_table(f, 2) or {}
     want_false = {"FunctionDef", "Assign", "AssignExisting", "AssignIndex", "Loop", "Break", "Continue", "Expression"}
     for kind in sorted(tab):
-        vals = [str(x) for x in tab[kind]]
+        # `?unreachable` is the evaluator's mark for the impossible `otherwise` edge of an exhaustive match: not an outcome
+        vals = [str(x) for x in tab[kind] if not str(x).startswith("?")]
         key = "always-returns|%s" % kind
         if kind in want_false:
             if vals == ["false"]:
@@ -1092,7 +1100,63 @@ def r13_placeholder_names_use_the_identifier_alphabet(ctx):
         ctx.bad("placeholder|continuation-alphabet|%s-missing" % "+".join(sorted(missing)), fn.where(), "a placeholder name stops at a %s although the scanner accepts it in an identifier: `{row2}` is taken for literal text, so the variable use inside it is neither resolved nor checked" % "/".join(sorted(missing)))
 
 
-RULES = [("C09-R1", r1a_typing_tables), ("C09-R1b", r1b_accepted_is_evaluable), ("C09-R1c", r1c_inferred_types), ("C09-R1d", r1d_inferred_type_is_sound), ("C09-R2", r2_rule_presence), ("C09-R3", r3_context_per_function), ("C09-R4", r4_declared_type_follows_latest_declaration), ("C09-R5", r5_every_child_is_checked), ("C09-R6", r6_scope_of_a_declaration), ("C09-R7", r7_fixpoints_run_to_the_end), ("C09-R8", r8_static_tables_are_the_documented_ones), ("C09-R9", r9_return_types_are_inferred_in_the_function_s_own_scope), ("C09-R10", r10_static_types_stay_true_under_assignment), ("C09-R11", r11_always_returns_is_a_must_analysis), ("C09-R12", r12_static_scope_searches_go_innermost_first), ("C09-R13", r13_placeholder_names_use_the_identifier_alphabet)]
+def r14_every_keyword_is_reserved(ctx):
+    """`Reserved ... name used as a name` is diagnosed under its own category only for the tokens Token::is_reserved_keyword
+    answers true for.  The table must contain every keyword of the language (the single-word keywords of
+    reference/language.json and the multi-word ones): a keyword that is missing is still refused as a name - the parser finds
+    no identifier - but under the category of a syntax error, not of the broken rule."""
+    from ..tables import mir_enum_table
+    import json
+    import os
+    ref = json.load(open(os.path.join(os.path.dirname(os.path.dirname(os.path.dirname(os.path.abspath(__file__)))), "reference", "language.json")))
+    fn = ctx.lib.fns.get("syntax::token::Token::is_reserved_keyword")
+    if fn is None:
+        ctx.bad("reserved|anchor", "", "Token::is_reserved_keyword not found")
+        return
+    ctx.touch(fn)
+    tab = mir_enum_table(fn, 1) or {}
+    want = set(ref["keywords"].values()) | {"SmallPass", "IfToSay", "IfNotSo"}
+    for v in sorted(want):
+        vals = [str(x) for x in tab.get(v, ["?"])]
+        if vals == ["true"]:
+            ctx.ok("reserved|%s" % v, fn.where(), "reserved")
+        else:
+            ctx.bad("reserved|%s|not-reserved" % v, fn.where(), "the keyword token %s is not in the reserved-word table: `make %s get 5` is refused as a syntax error (missing identifier) instead of `use of reserved keyword`" % (v, v.lower()))
+    extra = sorted(v for v, r in tab.items() if [str(x) for x in r] == ["true"] and v not in want)
+    if extra:
+        ctx.bad("reserved|extra|%s" % ",".join(extra), fn.where(), "tokens %s are reserved although they are not keywords" % extra)
+
+
+def r15_method_argument_checks_look_at_the_argument_they_name(ctx):
+    """Where the checker tests the static type of a method's argument, it tests the argument the runtime is strict about: the
+    *name* of `env(name, value)` (position 0; the value is converted with to_string and may be anything), the path of `cwd`,
+    the separator of `join`, the duration of `timeout_ms` - all position 0.  Both arguments are expressions, so testing the
+    other one type-checks, rejects `c.env("RETRIES", 3)` and accepts `c.env(404, "x")`."""
+    fn = ctx.need("resolver::Resolver::check_expr")
+    ctx.touch(fn)
+    n = 0
+    for c in fn.calls():
+        short = (c.callee or "").split("::")[-1]
+        if short not in ("expect_member_string_arg", "expect_member_number_arg", "expect_member_timeout_arg") and not short.startswith("expect_member_"):
+            continue
+        argtxt = [sh(ne(fn.deep(a, 10))).replace(" ", "") for a in c.args]
+        idx = None
+        for t in argtxt:
+            m = re.search(r"\.args\[(\d+)\]|index\([^)]*\.args[^,]*,(\d+)\)", t)
+            if m:
+                idx = int(m.group(1) or m.group(2))
+        if idx is None:
+            continue
+        n += 1
+        ordn = sum(1 for r in ctx.records if r["rule"] == ctx.rule and r["instance"].startswith("member-arg-check#"))
+        if idx == 0:
+            ctx.ok("member-arg-check#%d" % (ordn + 1), fn.where(c.block), "%s looks at argument 0" % short)
+        else:
+            ctx.bad("member-arg-check|%s|argument-%d" % (short, idx), fn.where(c.block), "%s is applied to argument %d of a method call; the argument the runtime is strict about is argument 0 (for `env`: the name - the value may be of any type): well-formed calls are rejected and ill-formed ones accepted" % (short, idx))
+    ctx.floor("static type tests of method arguments", n, 3)
+
+
+RULES = [("C09-R1", r1a_typing_tables), ("C09-R1b", r1b_accepted_is_evaluable), ("C09-R1c", r1c_inferred_types), ("C09-R1d", r1d_inferred_type_is_sound), ("C09-R2", r2_rule_presence), ("C09-R3", r3_context_per_function), ("C09-R4", r4_declared_type_follows_latest_declaration), ("C09-R5", r5_every_child_is_checked), ("C09-R6", r6_scope_of_a_declaration), ("C09-R7", r7_fixpoints_run_to_the_end), ("C09-R8", r8_static_tables_are_the_documented_ones), ("C09-R9", r9_return_types_are_inferred_in_the_function_s_own_scope), ("C09-R10", r10_static_types_stay_true_under_assignment), ("C09-R11", r11_always_returns_is_a_must_analysis), ("C09-R12", r12_static_scope_searches_go_innermost_first), ("C09-R13", r13_placeholder_names_use_the_identifier_alphabet), ("C09-R14", r14_every_keyword_is_reserved), ("C09-R15", r15_method_argument_checks_look_at_the_argument_they_name)]
 
 EXPLANATION = (
     "R1: the accept/reject arms of check_expr are evaluated arm-by-arm (first-match semantics over name-resolved HIR patterns) "
@@ -1124,4 +1188,7 @@ TRUSTED = ["rustc nightly HIR name resolution and MIR", "nsx exporter", "nsverif
 NONTRIVIAL = "one obligation per typing cell (640), per accepted concrete cell, per single-operand rule and per rule-presence row; distinct = distinct cell/row"
 EXPLANATION += (
     ' Round 6: R11 `always returns` is a must-analysis, kind by kind (return yes; if only with both branches, a missing else never; loop never; block its statements; everything else no; a sequence when some statement does, starting from false). R12 shares C04-R11. R13: the parser reads placeholder names with the identifier alphabet (letters, digits, underscore after the first character).'
+)
+EXPLANATION += (
+    ' Round 7: R14 every keyword token (reference/language.json plus the multi-word ones) is in the reserved-word table and nothing else is; R15 the static type tests of method arguments look at argument 0 (the name of env, the path of cwd, the separator of join, the duration of timeout_ms).'
 )
